@@ -11,7 +11,7 @@
        div = num - 1 ; delta = b - a ; step = delta / div
        y[i] = i*step + a   (when step == 0:  (i/div)*delta + a)
        y[-1] = b           (when num > 1)                                   *)
-From Coq Require Import PrimFloat Uint63 ZArith List Arith Bool Lia.
+From Coq Require Import PrimFloat Uint63 ZArith QArith List Arith Bool Lia.
 From Verif.lib Require Import NpCore.
 Import ListNotations.
 Open Scope float_scope.
@@ -84,6 +84,23 @@ Definition bp_ok (a b : float) (n : nat) : bool :=
 
 Definition grid_check (nmax : nat) (g : list (float * float)) : bool :=
   forallb (fun ab => forallb (fun n => bp_ok (fst ab) (snd ab) n) (seq 1 nmax)) g.
+
+(* the double nearest to a rational with |numerator|, denominator < 2^53: both are exact doubles
+   and IEEE division is correctly rounded -- this is the value of the decimal / rational literal *)
+Definition f_of_z (z : Z) : float :=
+  match z with
+  | Z0 => 0
+  | Zpos _ => PrimFloat.of_uint63 (Uint63.of_Z z)
+  | Zneg q => - PrimFloat.of_uint63 (Uint63.of_Z (Zpos q))
+  end.
+Definition f_of_q (q : Q) : float := f_of_z (Qnum q) / f_of_z (Zpos (Qden q)).
+Definition f_of_qq (ab : Q * Q) : float * float := (f_of_q (fst ab), f_of_q (snd ab)).
+(* all (x, y) with x before y in the list *)
+Fixpoint pairs_of (l : list Q) : list (Q * Q) :=
+  match l with
+  | [] => []
+  | x :: t => map (fun y => (x, y)) t ++ pairs_of t
+  end.
 
 Definition bp_old_f (a b : float) (n : nat) : list float :=
   a :: sl_from1 (arange_f (n + 3) a b ((b - a) / nat_f n)) ++ [b].
